@@ -26,7 +26,7 @@ import (
 func TestVF_C20_Credential(t *testing.T) {
 	rec := vfh.New(t, "C20")
 	defer rec.Flush()
-	reps := rec.N(32, 128)
+	reps := rec.N(32, 1200)
 	defer runtime.GOMAXPROCS(runtime.GOMAXPROCS(0))
 	for rep := 0; rep < reps; rep++ {
 		if !rec.Mine(rep) {
